@@ -168,6 +168,17 @@ package flows
 //@   pure
 //@   reads events.BaseEvent::Type_
 
+// ---- C01: what an action may do to runs: it can fail the run it executes in (baseAction.fail), nothing else. Trusted frame,
+// justified by the structural obligations writers(run.status/exitedOn/parent), callers(Exit/SetStatus) and call_arg_values.
+//@ interface Action.Execute
+//@   assigns *
+//@   ensures_trusted [runs_frame] (forall r *runs.run {r.status} :: r != arg0.(*runs.run) ==> r.status == old(r.status)) && same("runs.run::parent") && (forall ss *engine.session {ss.status} :: ss.status == old(ss.status)) && (forall ss *engine.session {ss.runs} :: ss.runs == old(ss.runs)) && (arg0.(*runs.run).status == old(arg0.(*runs.run).status) || arg0.(*runs.run).status == RunStatusFailed)
+
+// a trigger initialises the first run of a session (input, contact): it does not touch run statuses, parents or the session's runs
+//@ interface Trigger.InitializeRun
+//@   assigns *
+//@   ensures_trusted [runs_frame] (forall r *runs.run {r.status} :: r.status == old(r.status)) && same("runs.run::parent") && (forall ss *engine.session {ss.status} :: ss.status == old(ss.status)) && (forall ss *engine.session {ss.runs} :: ss.runs == old(ss.runs)) && (forall ss *engine.session {ss.pushedFlow} :: ss.pushedFlow == old(ss.pushedFlow))
+
 // ---- C05: ghost step counter. sprintSteps is *defined* as the number of Run.CreateStep calls; only
 // session.visitNode calls it (structural obligation callers_subset), so it counts the steps a sprint visits.
 //@ ghost sprintSteps int protected
